@@ -544,39 +544,7 @@ func runC17(c *Ctx) {
 		okF := used && rewards && receipt
 		c.Check(fname(at)+"#one-gas-figure", ac.Pos(), okF, ifelse(okF, "usedGas, gasRewards (× GasPrice) and receipt.GasUsed all take result 1 of ApplyMessageEntry", fmt.Sprintf("block gas used, gas rewards and the receipt do not use one gas figure (usedGas=%v rewards=%v receipt=%v): fees paid and rewards credited differ", used, rewards, receipt)))
 	}
-	// the figure is computed after the refund
-	var refundCall ssa.CallInstruction
-	for _, ci := range callInstrs(ame) {
-		if o := calleeObj(ci); o != nil && o.Name() == "refundGas" {
-			refundCall = ci
-		}
-	}
-	if refundCall == nil {
-		c.Fail(fname(ame)+"#reported-gas-after-refund", ame.Pos(), "ApplyMessageEntry does not refund unused gas")
-	} else {
-		okAfter := true
-		for _, b := range ame.Blocks {
-			r, ok := b.Instrs[len(b.Instrs)-1].(*ssa.Return)
-			if !ok || b == ame.Recover || !refundCall.Block().Dominates(b) {
-				continue
-			}
-			// result 1 must be computed by something the refund dominates
-			fig := stripConv(r.Results[1])
-			if in, isIn := fig.(ssa.Instruction); isIn {
-				src := in
-				if e, isE := fig.(*ssa.Extract); isE {
-					if ti, ok := e.Tuple.(ssa.Instruction); ok {
-						src = ti
-					}
-				}
-				if !instrDominates(refundCall, src) {
-					okAfter = false
-				}
-			}
-		}
-		c.sites++
-		c.Check(fname(ame)+"#reported-gas-after-refund", refundCall.Pos(), okAfter, ifelse(okAfter, "the reported gas is computed after refundGas", "the gas figure reported to the caller is taken before refundGas adds the refund counter back: the sender pays for (used − refund) gas while receipt, block gas used and gas rewards count the unreduced figure, so rewards credited exceed fees paid by refund × price"))
-	}
+	reportedGasAfterRefund(c, w)
 	converterGasFigures(c, w)
 	rg := w.Fn("core", "MessageContext", "refundGas")
 	c.sawFunc(fname(rg))
@@ -830,6 +798,7 @@ func c17Variants() []Variant {
 		{Name: "debit-before-pool", File: "core/message_context.go", Old: "	if err := mc.GP.SubGas(mc.Msg.Gas()); err != nil {\n		return err\n	}\n	mc.AvailableGas = mc.Msg.Gas()\n	mc.InitialGas = mc.Msg.Gas()\n	mc.State.SubBalance(from, mgval)", New: "	mc.State.SubBalance(from, mgval)\n	if err := mc.GP.SubGas(mc.Msg.Gas()); err != nil {\n		return err\n	}\n	mc.AvailableGas = mc.Msg.Gas()\n	mc.InitialGas = mc.Msg.Gas()", Rule: "C17.T3", Construct: "buyGas#refuses-before-mutating"},
 		{Name: "staking-without-nonce", File: "staking/tx_converter.go", Old: "	msgCtx.State.SetNonce(from, msgCtx.State.GetNonce(from)+1)\n", New: "	_ = from\n", Rule: "C17.T4", Construct: "nonce-before-handler"},
 		{Name: "rewards-from-gas-limit", File: "core/state_processor.go", Old: "new(big.Int).Mul(tx.GasPrice(), new(big.Int).SetUint64(gas)))", New: "new(big.Int).Mul(tx.GasPrice(), new(big.Int).SetUint64(msg.Gas())))", Rule: "C17.T5", Construct: "one-gas-figure"},
+		{Name: "refused-message-not-reverted", File: "core/state_processor.go", Old: "		statedb.RevertToSnapshot(snapshot)\n", New: "		_ = snapshot\n", Rule: "C17.T8", Construct: "ApplyMessageEntry"},
 	}
 }
 
@@ -931,5 +900,61 @@ func converterGasFigures(c *Ctx, w *World) {
 			}
 			c.Fail(key, r.Pos(), "the gas figure reported by the converter is neither GasUsed() nor the fully consumed InitialGas")
 		}
+	}
+}
+
+// reportedGasAfterRefund (C17.T5 clause, = C07.P17): the gas figure that ApplyMessageEntry reports is computed after
+// the refund. The body may live in a helper split off from ApplyMessageEntry.
+func reportedGasAfterRefund(c *Ctx, w *World) {
+	entry := w.Fn("core", "StateProcessor", "ApplyMessageEntry")
+	ame := entry
+	hasRefund := func(fn *ssa.Function) bool {
+		for _, ci := range callInstrs(fn) {
+			if o := calleeObj(ci); o != nil && o.Name() == "refundGas" {
+				return true
+			}
+		}
+		return false
+	}
+	if !hasRefund(ame) {
+		for _, ci := range callInstrs(entry) {
+			if g := ci.Common().StaticCallee(); g != nil && g.Pkg == entry.Pkg && g.Blocks != nil && hasRefund(g) && onlyCalledFrom(w, g, entry) {
+				ame = g
+			}
+		}
+	}
+	c.sawFunc(fname(ame))
+	key := fname(entry) + "#reported-gas-after-refund"
+	var refundCall ssa.CallInstruction
+	for _, ci := range callInstrs(ame) {
+		if o := calleeObj(ci); o != nil && o.Name() == "refundGas" {
+			refundCall = ci
+		}
+	}
+	if refundCall == nil {
+		c.Fail(key, ame.Pos(), "ApplyMessageEntry does not refund unused gas")
+	} else {
+		okAfter := true
+		for _, b := range ame.Blocks {
+			r, ok := b.Instrs[len(b.Instrs)-1].(*ssa.Return)
+			if !ok || b == ame.Recover || !refundCall.Block().Dominates(b) {
+				continue
+			}
+			// result 1 must be computed by something the refund dominates
+			fig := stripConv(r.Results[1])
+			if in, isIn := fig.(ssa.Instruction); isIn {
+				src := in
+				if e, isE := fig.(*ssa.Extract); isE {
+					if ti, ok := e.Tuple.(ssa.Instruction); ok {
+						src = ti
+					}
+				}
+				if !instrDominates(refundCall, src) {
+					okAfter = false
+				}
+			}
+		}
+		c.sites++
+		c.Check(key, refundCall.Pos(), okAfter, ifelse(okAfter, "the reported gas is computed after refundGas", "the gas figure reported to the caller is taken before refundGas adds the refund counter back: the sender pays for (used − refund) gas while receipt, block gas used and gas rewards count the unreduced figure, so rewards credited exceed fees paid by refund × price"))
 	}
 }
